@@ -21,6 +21,24 @@ type blockFaultStore struct {
 	budget int
 	passed int // block writes let through since arming
 	failed int // block writes failed since arming
+	// trigger, when set, is closed at the next block write on B (one shot): "B is storing a block of
+	// a push right now", i.e. the sender's push-log call is in flight.
+	trigger chan struct{}
+}
+
+// onNextBlockWrite arms the one-shot trigger and returns the channel that is closed when B next
+// stores a block.
+func (s *blockFaultStore) onNextBlockWrite() <-chan struct{} {
+	s.mu.Lock()
+	defer s.mu.Unlock()
+	s.trigger = make(chan struct{})
+	return s.trigger
+}
+
+func (s *blockFaultStore) disarmTrigger() {
+	s.mu.Lock()
+	defer s.mu.Unlock()
+	s.trigger = nil
 }
 
 var errInjectedBlockWrite = errors.New("c15: injected failure of a block write on B (sync interrupted)")
@@ -53,6 +71,10 @@ func (s *blockFaultStore) check(key []byte) error {
 	}
 	s.mu.Lock()
 	defer s.mu.Unlock()
+	if s.trigger != nil {
+		close(s.trigger)
+		s.trigger = nil
+	}
 	if !s.armed {
 		return nil
 	}
